@@ -16,6 +16,8 @@ import (
 	"pgregory.net/rapid"
 
 	"github.com/KevoDB/kevo/pkg/config"
+
+	"verif/internal/ev"
 )
 
 // ManifestCase: base configuration (Sets on the default), then updates.
@@ -25,6 +27,11 @@ type ManifestCase struct {
 	// (the manifest shares it), each followed by Save: an invalid configuration
 	// must be rejected by Save before anything is written
 	Pokes []Set `json:"pokes,omitempty"`
+	// Trunc: after the updates the stored manifest (a history of entries) is cut
+	// to strict prefixes and loaded: "all" = every length, "structural" = every
+	// length that ends behind a '}', ']', ',' or line break (where a cut leaves
+	// complete entries behind). Every such load must fail.
+	Trunc string `json:"trunc,omitempty"`
 }
 
 func runManifest(c *Case) *Fail {
@@ -97,6 +104,30 @@ func runManifest(c *Case) *Fail {
 			return f
 		}
 	}
+	if c.Manifest.Trunc != "" {
+		data, err := os.ReadFile(mpath)
+		must(err)
+		const ws = " \t\r\n"
+		whole := bytes.TrimRight(data, ws)
+		db2 := filepath.Join(root, "cut")
+		must(os.MkdirAll(db2, 0o755))
+		tried := 0
+		for n := 0; n < len(data); n++ {
+			if c.Manifest.Trunc == "structural" && n > 0 && !bytes.ContainsRune([]byte("}],\n"), rune(data[n-1])) {
+				continue
+			}
+			if bytes.Equal(bytes.TrimRight(data[:n], ws), whole) {
+				continue // only trailing white space is missing
+			}
+			must(os.WriteFile(filepath.Join(db2, manifestName), data[:n], 0o644))
+			tried++
+			if l, err := config.LoadManifest(db2); err == nil {
+				same, _ := cmpCfg(cur, l.GetConfig(), nil)
+				return failf("manifest/truncated-history-loads", "the stored manifest (%d bytes) cut to its first %d bytes loads without error (current configuration equals the stored one: %v)", len(data), n, same == "")
+			}
+		}
+		ev.R().Count("manifest_history_truncations_tried", tried)
+	}
 	for pi, u := range c.Manifest.Pokes {
 		live := m.GetConfig()
 		saved := cloneCfg(live)
@@ -142,6 +173,7 @@ func genManifest(t *rapid.T) Case {
 			_ = setField(cur, f.Name, v, genRoot)
 		}
 	}
+	c.Manifest.Trunc = rapid.SampledFrom([]string{"", "", "", "", "structural", "structural", "structural", "structural", "structural", "all"}).Draw(t, "mtrunc")
 	for i, n := 0, rapid.IntRange(0, 3).Draw(t, "npokes"); i < n; i++ {
 		f := fs[rapid.IntRange(0, len(fs)-1).Draw(t, "pfield")]
 		v := drawValue(t, f, cur, "any")
